@@ -18,6 +18,7 @@ spec fn regex_ready(re: Regex, npool: int) -> bool {
     regex_wf(re) && re.input_from_position@.len() <= u32::MAX
     && re.endmarker_position == re.input_from_position@.len()
     && leaves_bounded(re.arena@, nid(re.root_id), re.input_from_position@.len() as int)
+    && glushkov_ready(re)
     && (forall|p: int| 0 <= p < re.input_from_position@.len() ==> input_ok(#[trigger] re.input_from_position@[p], npool))
 }
 
@@ -63,5 +64,35 @@ spec fn inputs_flat_from(ifp: Seq<RegexInput>, from: int) -> bool {
 spec fn pool_flat(pool: Seq<Regex>) -> bool {
     forall|i: int| 0 <= i < pool.len() ==> inputs_flat_from((#[trigger] pool[i]).input_from_position@, 0)
 }
+
+
+/// the augmented regex `(r)#`: root = Cat[r, EndMarker(n)], n = number of items
+spec fn augmented(re: Regex) -> bool {
+    let a = re.arena@;
+    let root = nid(re.root_id);
+    let n = re.input_from_position@.len();
+    0 <= root < a.len() && n <= u32::MAX && re.endmarker_position == n && match a[root] {
+        RegexNode::Cat(ch) => ch@.len() == 2 && 0 <= ch@[0].0 < root && 0 <= ch@[1].0 < root
+            && a[ch@[1].0 as int] == RegexNode::EndMarker(n as u32)
+            && leaves_bounded(a, ch@[0].0 as int, n - 1),
+        _ => false,
+    }
+}
+
+/// the body r of the augmented regex
+spec fn body_of(re: Regex) -> int {
+    match re.arena@[nid(re.root_id)] { RegexNode::Cat(ch) => ch@[0].0 as int, _ => 0 }
+}
+
+/// the code's follow relation is the Dragon Book's (unit c02d proves it for every regex from_expr returns)
+spec fn follow_is_dragon(re: Regex) -> bool {
+    forall|t: u32, h: u32| follows_code(re.arena@, nid(re.root_id), t, h) == #[trigger] follows(re.arena@, nid(re.root_id), t, h)
+}
+
+/// the augmented regex with a linear body
+spec fn glushkov_ready(re: Regex) -> bool {
+    augmented(re) && follow_is_dragon(re) && lin_ok(re.arena@, body_of(re)) && !(re.arena@[body_of(re)] is Star)
+}
+
 
 } // verus!
